@@ -217,6 +217,54 @@ func VH_stree_CursorDeep() {
 	vCover("cursor-deep")
 }
 
+// VH_stree_CursorAfterHistory: a tree grown and then shrunk through the exported API
+// (ascending symbolic keys, so no forks), far enough to trigger the removal-side
+// rebuild; then a complete cursor walk in both directions and per-node checks.
+func VH_stree_CursorAfterHistory() {
+	n, drop := vCase("n"), vCase("drop")
+	t := New[vKT](vBeta(), vCmpKT)
+	var ref []vKT
+	for i := 0; i < n; i++ {
+		k := vKT{vOrd("k"), i}
+		if i > 0 {
+			vAssume(ref[i-1].K < k.K)
+		}
+		ref = append(ref, k)
+		vAssert(t.Add(k), "Add of a new key")
+	}
+	for i := 0; i < drop; i++ {
+		j := 0
+		if vCase("from") == 1 {
+			j = len(ref) - 1
+		}
+		vAssert(t.Remove(ref[j]), "Remove of a present key")
+		ref = append(append([]vKT{}, ref[:j]...), ref[j+1:]...)
+	}
+	vCover("cursor-after-history")
+	// forward walk
+	c := t.Root().Min()
+	for i := 0; i < len(ref); i++ {
+		vAssert(c.Valid() && c.Key().Tag == ref[i].Tag, "forward walk visits the keys in ascending order")
+		vAssert(c.HasNext() == (i+1 < len(ref)), "HasNext predicts Next during the walk")
+		vAssert(c.HasPrev() == (i > 0), "HasPrev predicts Prev during the walk")
+		sub := 0
+		c.Inorder(func(k vKT) bool { sub++; return sub <= len(ref) })
+		vAssert(sub >= 1 && sub <= len(ref), "cursor Inorder terminates within the subtree")
+		c.Next()
+	}
+	vAssert(!c.Valid(), "walking past the maximum invalidates the cursor")
+	// backward walk
+	c = t.Root().Max()
+	for i := len(ref) - 1; i >= 0; i-- {
+		vAssert(c.Valid() && c.Key().Tag == ref[i].Tag, "backward walk visits the keys in descending order")
+		c.Prev()
+	}
+	vAssert(!c.Valid(), "walking past the minimum invalidates the cursor")
+	for _, k := range ref {
+		vAssert(t.Cursor(k).Key().Tag == k.Tag, "Cursor(key) finds every remaining key")
+	}
+}
+
 // VH_stree_CursorNil: nil and invalid cursors are harmless.
 func VH_stree_CursorNil() {
 	var c *Cursor[vKT]
